@@ -750,3 +750,43 @@ package redis
 //@ ensures {C05,C12} H_calls >= old(H_calls) + 1 ==> H_m[old(H_calls)] == "ZRange" && H_conn[old(H_calls)] == conn && H_ZRange_key[old(H_calls)] == old(argS(args, 0)) && H_ZRange_start[old(H_calls)] == -1 - old(argI(args, 2)) && H_ZRange_stop[old(H_calls)] == -1 - old(argI(args, 1))
 //@ ensures {C05,C10} H_calls == old(H_calls) || H_calls == old(H_calls) + 1
 //@ ensures {C10} !old(strArg(args, 0)) || !old(intArg(args, 1)) || !old(intArg(args, 2)) ==> err != nil && H_calls == old(H_calls)
+
+// ---------------------------------------------------------------- lemmas_verif.go (constructors decode back to the Go value, C01)
+
+//@ func NewFloatMessage
+//@ assigns nothing
+//@ ensures {C01} result != nil && fresh(result) && result.Type == proto.BulkMessage && result.bytes != nil && string(result.bytes) == formatF(val) && result.array == nil
+
+//@ func verifCtorInteger
+//@ assigns nothing
+//@ ensures {C01} err == nil && result0 == v
+
+//@ func verifCtorString
+//@ assigns nothing
+//@ ensures {C01} err == nil && result0 == s
+
+//@ func verifCtorBulk
+//@ assigns nothing
+//@ ensures {C01} err == nil && result0 == s
+
+//@ func verifCtorOK
+//@ assigns nothing
+//@ ensures {C01} err == nil && result0 == "OK"
+
+//@ func verifCtorNil
+//@ assigns nothing
+//@ ensures {C01} result
+
+//@ func verifCtorFloat
+//@ requires !isNaN(v) && !isInf(v)
+//@ assigns nothing
+//@ ensures {C01} err == nil && result0 == v
+
+//@ func verifCtorStrings
+//@ requires 0 <= k && k < len(strs)
+//@ assigns nothing
+//@ ensures {C01} err == nil && result0 == strs[k]
+//@ loop 0
+//@   invariant 0 <= i && i <= k && a != nil && a.index == i && len(a.msgs) == len(strs) && fresh(a)
+//@   invariant forall j int :: 0 <= j && j < len(strs) ==> a.msgs[j] != nil && a.msgs[j].Type == proto.BulkMessage && a.msgs[j].bytes != nil && string(a.msgs[j].bytes) == strs[j]
+//@   decreases k - i
